@@ -128,6 +128,8 @@ pub struct Sandbox {
     /// transcript of commands run (for replay files / debugging)
     pub log: Vec<String>,
     pub log_enabled: bool,
+    /// when Some, stderr of every command run through the sandbox is appended
+    pub stderr_capture: Option<Vec<u8>>,
 }
 
 impl Drop for Sandbox {
@@ -173,6 +175,7 @@ impl Sandbox {
             keep: std::env::var_os("GAIV_KEEP").is_some(),
             log: Vec::new(),
             log_enabled: std::env::var_os("GAIV_LOG").is_some(),
+            stderr_capture: None,
         };
         sb.write_git_ai_config(&cfg);
         std::fs::write(
@@ -264,7 +267,11 @@ impl Sandbox {
                 args.iter().map(|a| format!("{:?}", a)).collect::<Vec<_>>().join(" ")
             );
         }
-        run_with_timeout(cmd, stdin, self.step_timeout)
+        let out = run_with_timeout(cmd, stdin, self.step_timeout);
+        if let Some(buf) = self.stderr_capture.as_mut() {
+            buf.extend_from_slice(&out.stderr);
+        }
+        out
     }
 
     fn os_args(args: &[&str]) -> Vec<OsString> {
